@@ -77,11 +77,29 @@ def report_bads(ctx, bads, events, origin):
     for (l, runid, ev, clause) in bads:
         e = events[l - 1]
         if clause == "Assemble":
-            raise vlib.ToolError("the harness could not assemble the forest of a ForestAgg state (line %d)" % l)
+            # not a property clause: the assembled forest is not the one the model asked for.
+            # A tool error, but only if nothing else explains it (see run()).
+            ctx.extra["assemble_failures"] = ctx.extra.get("assemble_failures", 0) + 1
+            continue
         stored = [e]
         if ev == "ForestRefit" and e["key"] in by_key:
             stored = [by_key[e["key"]], e]
         key = "%s: %s forest, %s" % (clause, kind_of(e, events), origin if ev != "ForestRefit" else "refit")
+        what = "%s fails on %s" % (clause, describe(e))
+        if clause == "OobAnswers":
+            st = e["obs"]["oobStatus"]
+            if origin == "assembled":
+                key = "OobAvailable: %s forest given samples[] through Deserialize refuses predict_oob" % kind_of(e, events)
+            else:
+                key = "OobAvailable: fitted %s forest with keep_samples=true refuses predict_oob" % kind_of(e, events)
+            what = "predict_oob on the training matrix returned %s for %s" % (st, describe(e))
+        elif clause == "SamplesObservable":
+            key = ("samples not observable (Stratified / InBagFit / OOB membership): %s %s forest, serde dump lacks one "
+                   "mask per member tree" % (origin, kind_of(e, events)))
+            o = e["obs"]
+            what = ("the serde dump of %s has %s samples[] (%d rows for %d trees); the bootstrap membership the property "
+                    "speaks of cannot be observed" % (describe(e), "a malformed" if o["hasMask"] else "no",
+                                                      len(o["mask"]), o["trees"]))
         group = key
         if ev == "ForestFit" and e["in"]["kind"] == "cls" and clause in ("Stratified", "InBagFit", "OobOK", "VoteOK", "LabelsOK"):
             # the class-size profile is part of the failing input class (a stratum of one row
@@ -91,7 +109,7 @@ def report_bads(ctx, bads, events, origin):
         per_group[group] = per_group.get(group, 0) + 1
         if per_key[key] > 3 or per_group[group] > 12:   # a few replay artefacts per failing class are enough
             continue
-        ctx.report(key, "%s fails on %s" % (clause, describe(e)), stored)
+        ctx.report(key, what, stored)
     for g, c in sorted(per_group.items()):
         if c > 3:
             profiles = sorted(k[len(g):].lstrip(", ") for k in per_key if k.startswith(g) and len(k) > len(g))
@@ -181,11 +199,17 @@ def run(ctx):
         nonun, tie, part, none = row_stats(o)
         if nonun or part:
             nt_asm += 1
-    for name in sorted(tot):
-        if tot[name] == 0:
-            raise vlib.ToolError("vacuous run: the generated fits contain no case of %s" % name)
-    if seed_sensitive == 0:
-        raise vlib.ToolError("vacuous run: no setting produced different forests for different seeds")
+    if not ctx.violations and not ctx.known_hits:
+        # tool-level complaints only when no property clause failed (a forest that stops
+        # exposing its samples, say, empties the OOB counters: that is the violation's effect)
+        if ctx.extra.get("assemble_failures"):
+            raise vlib.ToolError("the harness could not assemble %d forests of ForestAgg states as asked"
+                                 % ctx.extra["assemble_failures"])
+        for name in sorted(tot):
+            if tot[name] == 0:
+                raise vlib.ToolError("vacuous run: the generated fits contain no case of %s" % name)
+        if seed_sensitive == 0:
+            raise vlib.ToolError("vacuous run: no setting produced different forests for different seeds")
     ctx.evaluations = len(events) + len(obs_events)
     ctx.traces = sum(1 for e in events if e["ev"] in ("ForestFit", "ForestRefit")) + len(obs_events)
     ctx.extra["fits"] = {"real_fits": len(events), "keys": v2.get("keys"), "settings_whose_two_seeds_gave_different_forests": seed_sensitive,
